@@ -304,6 +304,17 @@ static Outcome runStartup(const KV& c)
             cfg.applyOptions(*s);
         }
         s->setup();
+        if (history == 3) {
+            // the same object has already run a full solve of this very problem (tolerances on, so the combined mode may
+            // have switched its smoother); the start-up of the next solve() - no setup() in between - must not notice
+            SolverCfg first = cfg;
+            first.max_its   = (int)c.getI("prev_its", 40);
+            first.rel_tol   = 1e-9;
+            first.abs_tol   = 1e-12;
+            first.applyOptions(*s);
+            s->solve();
+            cfg.applyOptions(*s);
+        }
     }
     catch (const std::exception& e) {
         o.cls("rejected_by_exception");
@@ -326,7 +337,10 @@ static Outcome runStartup(const KV& c)
             return o;
         }
     // (i)/(ii) equals the harness's nested iteration built from the reference cycles, same operators
+    // (for history 3 the object's smoother selection is exactly what must not matter: compare with a fresh object only)
     RefCycle rc(*s);
+    if (history == 3 && cfg.extrapolation == 3)
+        rc.fullGridSmoothing = true; // what a fresh object uses during its start-up in the combined mode
     Vector<double> ref = rc.fmgStart(cfg.fmg_cycle, cfg.fmg_its, cfg.extrapolation != 0);
     double scale = 0, diff = 0;
     for (int i = 0; i < ref.size(); i++) {
@@ -354,7 +368,7 @@ static Outcome runStartup(const KV& c)
         if (!same || dmax > 1e-13 * scale) {
             char buf[200];
             snprintf(buf, sizeof buf, "start-up approximation depends on the object's history (%s): differs from a fresh object by %.3e",
-                     history == 1 ? "previous solve" : "old data in the work vectors", dmax);
+                     history == 1 ? "previous solve of another problem" : (history == 3 ? "previous solve() without setup()" : "old data in the work vectors"), dmax);
             o.fail("history_dependence", buf);
             return o;
         }
@@ -443,7 +457,7 @@ static KV genCase()
         s.fmg        = 1;
         s.fmg_its    = rint(0, 3);
         s.fmg_cycle  = rint(0, 2);
-        s.extrapolation = rint(0, 1);
+        s.extrapolation = rweighted({2, 2, 0, 2}); // none, implicit, combined
         s.max_levels = rpick({-1, 2, 2, 3, 4, 5});
         s.pre        = rint(1, 2);
         s.post       = rint(1, 2);
@@ -454,7 +468,8 @@ static KV genCase()
             s.cache_geom = rbool();
         }
         s.put(c);
-        c.putI("history", rint(0, 2));
+        c.putI("history", rint(0, 3));
+        c.putI("prev_its", rpick({2, 5, 40}));
         c.putI("prev_fmg", rbool());
         c.putI("prev_extrapolation", rint(0, 1));
         c.putU("pollute_seed", rseed());
